@@ -808,6 +808,22 @@ fn op_bb(t: &[&str]) -> String {
         ("and", 4) => h(tryo!(a(2)) & tryo!(a(3))),
         ("or", 4) => h(tryo!(a(2)) | tryo!(a(3))),
         ("xor", 4) => h(tryo!(a(2)) ^ tryo!(a(3))),
+        // the compound-assignment forms (`a &= b`, `a |= b`, `a ^= b`) are separate trait impls
+        ("andassign", 4) => {
+            let mut x = tryo!(a(2));
+            x &= tryo!(a(3));
+            h(x)
+        }
+        ("orassign", 4) => {
+            let mut x = tryo!(a(2));
+            x |= tryo!(a(3));
+            h(x)
+        }
+        ("xorassign", 4) => {
+            let mut x = tryo!(a(2));
+            x ^= tryo!(a(3));
+            h(x)
+        }
         ("not", 3) => h(!tryo!(a(2))),
         ("with", 4) => h(tryo!(a(2)).with(tryo!(sq_arg(t[3])))),
         ("without", 4) => h(tryo!(a(2)).without(tryo!(sq_arg(t[3])))),
